@@ -171,6 +171,45 @@ def load_uses_resolved_keys(ctx: Ctx, rule: str) -> int:
     return 1
 
 
+
+def _establishes_presence(test: ast.AST, label: str) -> bool:
+    """the branch `label` of `test` implies that some `<store>.has_blob(..)` answered True"""
+    if isinstance(test, ast.UnaryOp) and isinstance(test.op, ast.Not):
+        return _establishes_presence(test.operand, "F" if label == "T" else "T")
+    if isinstance(test, ast.BoolOp):
+        if isinstance(test.op, ast.And) and label == "T":
+            return any(_establishes_presence(v, "T") for v in test.values)
+        if isinstance(test.op, ast.Or) and label == "F":
+            return any(_establishes_presence(v, "F") for v in test.values)
+        return False
+    return label == "T" and isinstance(test, ast.Call) and isinstance(test.func, ast.Attribute) and test.func.attr == "has_blob"
+
+
+def load_checks_presence(ctx: Ctx, rule: str) -> int:
+    """The public load() hands out `fetch_blob(key)` only after `has_blob(key)` answered True: fetch_blob answers None for an absent blob, which
+    is also a legitimate value - inside an evaluation the key of a path that the analysis found but the run did not produce has no blob"""
+    from .common import dominated
+    rep = ctx.report
+    prog = ctx.prog
+    load = prog.func("dds._api.load")
+    if load is None:
+        raise AnchorError("dds._api.load not found")
+    cfg = cfg_of(load)
+    fetches = [x for x in load.own_nodes() if isinstance(x, ast.Call) and isinstance(x.func, ast.Attribute) and x.func.attr == "fetch_blob"]
+    doms = [b for b in cfg.nodes if b.kind == "branch" and b.ast is not None and _establishes_presence(b.ast, b.label)]
+    n = 0
+    for fb in fetches:
+        n += 1
+        desc = "load() returns the blob of a key only after the store confirmed that it holds it"
+        w = dominated(ctx, load, fb, doms)
+        if w is None:
+            rep.ok(rule, load.qname, desc, load.loc(fb))
+        else:
+            rep.bad(rule, load.qname, desc, load.loc(fb), w + ["fetch_blob answers None for an absent blob: `if flag: dds.keep('/p', f)` (found by the analysis, not reached when flag is false) "
+                    "followed by `dds.load('/p')` returns None instead of the content of '/p' or an error"], "load-absent-blob",
+                    what="dds.load returns None when the blob of the path is not in the store")
+    return n
+
 def previous_covers_loads(ctx: Ctx, rule: str) -> int:
     """In the visitor of the main analysis, the signature of "what the function did before this call" that is handed to the call inspector
     covers every list in which the visitor records the outcome of an inspected call - the interactions AND the loaded paths: a value read
@@ -646,6 +685,10 @@ def run(ctx: Ctx) -> None:
     rep.floor("C09.R6", n6, 1)
     rep.rule("C09.R17", "inside an evaluation, load() resolves a path produced elsewhere to the key resolved when the evaluation started (the one its readers' signatures use)")
     load_uses_resolved_keys(ctx, "C09.R17")
+    rep.rule("C09.R18", "load() returns `fetch_blob(key)` only after `has_blob(key)`: an absent blob (the key of a path the analysis found but the run did not produce) is "
+                        "reported as an error, not answered with None")
+    n18 = load_checks_presence(ctx, "C09.R18")
+    rep.floor("C09.R18", n18, 1)
     rep.rule("C09.R16", "the signature of the previous steps that keys a call with run-time arguments covers the paths loaded so far, not only the calls made so far")
     n16 = previous_covers_loads(ctx, "C09.R16")
     rep.floor("C09.R16", n16, 2)
